@@ -481,6 +481,43 @@ def eval_finite(case):
             idx.append(int(cand[0]))
         if ok:
             add('C08.sample_measurements.eigenbasis', [abs(wgt) ** 2], [abs(ref_t[tuple(idx)]) ** 2], detail='%s %s' % (nme, vals))
+    # sampling in a *list* of eigenbases on a window that does not start at a multiple of len(ops):
+    # site i of the window is measured with ops[(i - first_site) % len(ops)]
+    def nondeg_herm(site):
+        out = []
+        for nme_ in plain_ops(site):
+            m_ = site.get_op(nme_).to_ndarray()
+            if np.linalg.norm(m_ - m_.conj().T) < 1e-13:
+                w_ = np.linalg.eigvalsh(m_)
+                if len(w_) == 1 or np.min(np.diff(np.sort(w_))) > 1e-6:
+                    out.append(nme_)
+        return set(out)
+
+    common = set.intersection(*[nondeg_herm(s_) for s_ in sites]) - {'Id', 'JW'}
+    if L >= 2 and len(common) >= 2:
+        for trial in range(2):
+            k_ = rnd.randint(2, min(3, len(common)))
+            ops_l = rnd.sample(sorted(common), k_)
+            first = rnd.choice([f_ for f_ in range(1, L) if f_ % k_ != 0] or [1])
+            last = rnd.randint(first, L - 1)
+            vals, wgt = psi.sample_measurements(first, last, ops=ops_l, rng=np.random.default_rng(rnd.getrandbits(31)))
+            t_ = ref_t
+            okv = True
+            # project site by site (from the right so that axis numbers stay valid)
+            for i_ in range(last, first - 1, -1):
+                m_ = sites[i_].get_op(ops_l[(i_ - first) % k_]).to_ndarray()
+                w_, v_ = np.linalg.eigh(m_)
+                cand = np.nonzero(np.abs(w_ - vals[i_ - first]) < 1e-9)[0]
+                if len(cand) != 1:
+                    okv = False
+                    break
+                t_ = np.tensordot(t_, v_[:, cand[0]].conj(), axes=(i_, 0))
+            det_ = 'first_site=%d last_site=%d ops=%s outcomes=%s' % (first, last, ops_l, np.round(np.real(vals), 6).tolist())
+            if not okv:
+                oracle.append(('C08.sample_measurements.ops-list.outcome-not-an-eigenvalue',
+                               det_ + ': an outcome is not an eigenvalue of the operator documented for that site'))
+            else:
+                add('C08.sample_measurements.ops-list', [abs(wgt) ** 2], [float(np.sum(np.abs(t_) ** 2))], tol=1e-8, detail=det_)
     # ---------------- different bra and ket: overlap and environment expectation values
     stb = mc.build_state(case['bra'])
     phi = stb['psi']
